@@ -44,12 +44,31 @@ def navigate(root, path):
 _RULES = {}
 
 
-def replay(c):
-    # one set of rule objects per worker process, reused across thousands of instances (as a long-running agent does)
+def float_exponents(tree):
+    """whole exponents of every second power become floats of the same value (x^2 next to x^2.0: equal numbers of different type)"""
+    from mathy_core import expressions as E
+    k = 0
+    for n in rewrite.inorder(tree):
+        if isinstance(n, E.PowerExpression) and isinstance(n.right, E.ConstantExpression) and isinstance(n.right.value, int):
+            k += 1
+            if k % 2 == 0:
+                n.right.value = float(n.right.value)
+    return k >= 2
+
+
+_COUNT = [0]
+
+
+def replay(c, variant=""):
+    # two sets of rule objects per worker process (options given by keyword / positionally), reused across thousands of instances
     if not _RULES:
-        _RULES.update({(n, o): r for n, o, r in rewrite.rules()})
-    rule = _RULES[(c["rule"], c["opt"])]
+        _RULES.update({(n, o, 0): r for n, o, r in rewrite.rules()})
+        _RULES.update({(n, o, 1): r for n, o, r in rewrite.rules()})
+    _COUNT[0] += 1
+    rule = _RULES[(c["rule"], c["opt"], _COUNT[0] % 2)]
     tree = build_json(c["inp"])
+    if variant == "floatexp" and not float_exponents(tree):
+        return None
     node = navigate(tree, c["path"])
     ev = {"c": c, "applicable": False, "outcome": "ok", "res": {"k": "c", "n": 0, "d": 1}}
     try:
@@ -73,13 +92,18 @@ def replay_envs(c):
     error state is strict (np.seterr(all="raise"), common in numeric applications): acceptance may not depend on it"""
     ev = replay(c)
     out = [ev]
+    if c["expect"] == "apply" and not c["hole"]:
+        ev3 = replay(c, "floatexp")
+        if ev3 is not None and (ev3["applicable"], ev3["outcome"]) != (ev["applicable"], ev["outcome"]):
+            ev3["env"] = "float-exponent"
+            out.append(ev3)
     if not c["hole"] and c["expect"] == "apply" and ev["outcome"] == "ok":
         import numpy as np
         ev2 = dict(ev)
         ev2["env"] = "np-raise"
         try:
             with np.errstate(all="raise"):
-                rule = _RULES[(c["rule"], c["opt"])]
+                rule = _RULES[(c["rule"], c["opt"], _COUNT[0] % 2)]
                 node = navigate(build_json(c["inp"]), c["path"])
                 ev2["applicable"] = bool(rule.can_apply_to(node))
         except BaseException as e:  # noqa
@@ -136,7 +160,7 @@ def run(ctx, cases=None):
         c = e["c"]
         ctxname = "top" if not c["hole"] else "ctx"
         res.violations.append(Violation("C08|%s|%s|%s" % (",".join(cl), c["sid"], c["opt"]),
-                                        "schema %s%s on %s at %s -> applicable=%s %s %r: %s" % (c["sid"], " [numpy error state: raise]" if e.get("env") else "", str(build_json(c["inp"])), c["path"], e["applicable"], e["outcome"], e.get("printed"), cl), c, cl))
+                                        "schema %s%s on %s at %s -> applicable=%s %s %r: %s" % (c["sid"], (" [%s]" % e["env"]) if e.get("env") else "", str(build_json(c["inp"])), c["path"], e["applicable"], e["outcome"], e.get("printed"), cl), c, cl))
     return res
 
 
